@@ -39,6 +39,7 @@ def run(ctx, rep):
     index_guard(F, rep)
     filter_keeps_what_it_tested(F, rep)
     result_identity(F, rep)
+    methods_answered_by_the_interpreter(F, rep)
     values_not_views(F, rep)
     # what an assignment instruction writes into a list / map slot is a value, never a view of another slot (shared rule with C08)
     from props import C08 as _c08
@@ -676,3 +677,59 @@ def result_identity(F, rep, rule="C13.result-identity"):
                "" if ok else ("the returned container comes from %s%s" % (sorted(kinds), "" if want else "; add the arm to the table after reading it")) +
                (": `r = xs.join(ys)` / `r.push(1)` no longer reaches xs" if name == "VecJoin" else ""), where, fn=run.path, key="%s|%s" % (rule, name))
     rep.floor(rule + " arms that build a list or map result", n, 9)
+
+
+def methods_answered_by_the_interpreter(F, rep, rule="C13.method-dispatch"):
+    """`xs.len()`, `m.keys()`, `xs.push(v)`, ..: what a list or map answers depends on its contents at that moment (every alias may have changed
+    it), so a member access is answered by the interpreter: the code of a link of a dot chain looks the member up on the receiver (`lookup
+    <name>`).  The generator <DotLookupOption as Compile>::compile is evaluated for every variant (boolean fields both ways, the rest opaque);
+    a word without `lookup` is a member the compiler answered itself - from the static type, which does not know the contents."""
+    import itertools
+    import jumps
+    import seqgen
+    import absint
+    from absint import Variant, Opaque, TRUE, FALSE, Interp
+    DLO = "compiler::ast::dot_lookup::DotLookupOption"
+    a = F.adt(DLO)
+    f = F.fn("<%s as compiler::ast::Compile>::compile" % DLO)
+    if a is None or f is None:
+        raise AnchorMissing("DotLookupOption / its Compile impl")
+
+    def cnew(it, p, fid, fn, t, args):
+        return Opaque("callable")
+    ms = dict(absint.DEFAULT_MODELS)
+    ms.update(seqgen.MODELS)
+    ms.update(jumps.MODELS)
+    ms["compiler::ast::callable::Callable::new"] = cnew
+    n = 0
+    for vi, v in enumerate(a["variants"]):
+        bools = [fl["name"] for fl in v["fields"] if fl["ty"] == "bool"]
+        words, und = [], []
+        for combo in itertools.product((TRUE, FALSE), repeat=len(bools)):
+            m = dict(zip(bools, combo))
+            fields = [m[fl["name"]] if fl["ty"] == "bool" else Opaque(fl["name"] or "f%d" % i) for i, fl in enumerate(v["fields"])]
+            it = Interp(F, models=ms, max_depth=5, max_paths=512, loop_bound=16)
+            it.jcfg = {"expand": "body", "x": None}
+            it.jreg = []
+            outs = it.run(f, [Variant(DLO, vi, v["name"], fields), Opaque("state")])
+            if it.exhausted:
+                und.append("path bound")
+            for o in outs:
+                if o.kind == "return" and isinstance(o.value, Variant) and o.value.name == "Ok":
+                    seq = o.value.fields[0]
+                    if isinstance(seq, seqgen.Seq):
+                        words.append(seq.items)
+                    elif isinstance(seq, absint.Tup):
+                        words.append(tuple(jumps.item_of(it, None, x) for x in seq.fields))
+                    else:
+                        und.append("unreadable result %r" % (seq,))
+        bad = [w for w in words if not any(x[0] == "ins" and x[1] == "lookup" for x in w)]
+        st = "violated" if bad else ("undecided" if (und or not words) else "ok")
+        if st != "undecided":
+            n += 1
+        rep.ob(rule, "a `.%s` link of a dot chain asks the receiver at run time (`lookup`)" % v["name"], st,
+               ("emitted without a lookup: `%s`: the member is answered from the receiver's static type, not from the list / map as it is when the "
+                "statement runs (`const xs = [1, 2, 3]  xs.push(4)  xs.len()`)" % " ".join(jumps.show_item(x) for x in bad[0])) if bad
+               else ("; ".join(und[:2]) if st == "undecided" else "emitted: %s" % " ".join(jumps.show_item(x) for x in words[0])[:160]),
+               f.span, fn=f.path, key="%s|%s" % (rule, v["name"]))
+    rep.floor(rule + " variants of DotLookupOption judged", n, 2)
